@@ -122,6 +122,7 @@ func runC19(c *Ctx) {
 	}
 	last := map[string]*succ{} // per server name: last successful connection since the last rotation
 	everOK := map[string]bool{}
+	origin := map[string]time.Duration{} // per name: oldest full handshake since the last key rotation
 	pendingCorrupt := map[string]bool{}
 	var plan []string
 	for i, s := range steps {
@@ -135,6 +136,7 @@ func runC19(c *Ctx) {
 			scfg.SetSessionTicketKeys([][32]byte{k})
 			stdcfg.SetSessionTicketKeys([][32]byte{k})
 			last = map[string]*succ{}
+			origin = map[string]time.Duration{}
 			c.Fault("key-rotation", 1)
 		}
 		corrupted := false
@@ -254,13 +256,14 @@ func runC19(c *Ctx) {
 					c.Probe("resumed-after-hrr")
 				}
 			}
-			ns := &succ{id: s.id.Name, at: clockOff, fullAt: clockOff, ver: ver}
-			if prev != nil && prev.fullAt < ns.fullAt {
-				// the session in the cache may descend from any earlier full handshake to this name
-				// (a connection whose fingerprint carries no ticket extension stores nothing and leaves
-				// the older entry in place): the ticket lifetime is counted from the oldest candidate
-				ns.fullAt = prev.fullAt
+			// the session in the cache may descend from any earlier full handshake to this name since
+			// the last key rotation (a connection whose fingerprint carries no ticket extension stores
+			// nothing; an aborted connection may or may not have dropped the entry): the ticket
+			// lifetime is counted from the oldest candidate
+			if og, ok := origin[s.name]; !ok || clockOff < og {
+				origin[s.name] = clockOff
 			}
+			ns := &succ{id: s.id.Name, at: clockOff, fullAt: origin[s.name], ver: ver}
 			last[s.name] = ns
 			plan[len(plan)-1] += fmt.Sprintf("=>ok,resumed=%v,t=%v,full@%v", o.CState.DidResume, clockOff, ns.fullAt)
 		}
